@@ -7,9 +7,9 @@ import (
 
 	"github.com/ipfs/go-cid"
 
+	"github.com/ucan-wg/go-ucan/pkg/container"
 	"github.com/ucan-wg/go-ucan/pkg/policy"
 	"github.com/ucan-wg/go-ucan/pkg/policy/literal"
-	"github.com/ucan-wg/go-ucan/pkg/container"
 	"github.com/ucan-wg/go-ucan/token/delegation"
 	"github.com/ucan-wg/go-ucan/token/invocation"
 
@@ -819,7 +819,9 @@ func c04RenewSub(dir string) *engine.Sub {
 	return &engine.Sub{
 		Name: name,
 		Rule: "the loader is a container.Reader (CBOR and CAR) that holds the chain's delegations and, for one link, TWO issues of the same grant (same issuer, audience, subject, command, policy; different nonce): one that is not valid now (expired 10 years ago, or not active for another 10 years) and one that is (no bound, or bounds 10 years away). The invocation's proof list names one of the two by its CID: the check is decided on the token the proof list names - denied for the invalid issue (C04), allowed for the valid one (C05) - whatever else the container holds; non-trivial = all",
-		Bound: func(string) string { return "chains of 1..2 links x renewed position x 3 kinds of second issue x {names old, names new} x 2 formats x 2 APIs" },
+		Bound: func(string) string {
+			return "chains of 1..2 links x renewed position x 3 kinds of second issue x {names old, names new} x 2 formats x 2 APIs"
+		},
 		Setup: func(string) error { chainInit(); return nil },
 		Gen: func(tier string, emit func(any) bool) {
 			for n := 1; n <= 2; n++ {
